@@ -16,6 +16,8 @@ struct AProg {
     tparams: Vec<usize>,
     /// impls: (trait, struct)
     impls: Vec<(usize, usize)>,
+    /// trait declares a second associated type `B<t>`
+    second: Vec<bool>,
     text: String,
 }
 
@@ -46,13 +48,22 @@ fn gen(rng: &mut Rng) -> AProg {
     let arities: Vec<usize> = (0..ns).map(|i| if i < 2 { 0 } else { rng.usize_below(2) }).collect();
     let nt = 1 + rng.usize_below(2);
     let tparams: Vec<usize> = (0..nt).map(|_| if rng.chance(1, 4) { 1 } else { 0 }).collect();
+    // half of the traits declare a second associated type `B<t>`; impls list their `type .. = ..;`
+    // items in random order (the order inside an impl need not be the trait's declaration order)
+    let second: Vec<bool> = (0..nt).map(|_| rng.chance(1, 2)).collect();
     let mut s = String::new();
     for (i, a) in arities.iter().enumerate() {
         s.push_str(&format!("struct S{}{} {{}}\n", i, if *a == 1 { "<P0>" } else { "" }));
     }
     s.push_str("trait M {}\nimpl M for S0 {}\nimpl M for u32 {}\n");
     for (t, np) in tparams.iter().enumerate() {
-        s.push_str(&format!("trait T{}{} {{ type A{}; }}\n", t, if *np == 1 { "<Q0>" } else { "" }, t));
+        s.push_str(&format!(
+            "trait T{}{} {{ type A{}; {}}}\n",
+            t,
+            if *np == 1 { "<Q0>" } else { "" },
+            t,
+            if second[t] { format!("type B{}; ", t) } else { String::new() }
+        ));
     }
     let mut impls = vec![];
     for t in 0..nt {
@@ -64,14 +75,39 @@ fn gen(rng: &mut Rng) -> AProg {
             let targ = if tparams[t] == 1 { format!("<{}>", if arities[i] == 1 && rng.chance(1, 2) { "P0".to_string() } else { "S0".to_string() }) } else { String::new() };
             if arities[i] == 1 {
                 let wc = if rng.chance(1, 3) { " where P0: M" } else { "" };
-                s.push_str(&format!("impl<P0> T{}{} for S{}<P0>{} {{ type A{} = {}; }}\n", t, targ, i, wc, t, ty(rng, &arities, 1, 2)));
+                let body = assoc_items(rng, t, second[t], &arities, 1);
+                s.push_str(&format!("impl<P0> T{}{} for S{}<P0>{} {{ {} }}\n", t, targ, i, wc, body));
             } else {
-                s.push_str(&format!("impl T{}{} for S{} {{ type A{} = {}; }}\n", t, targ, i, t, ty(rng, &arities, 0, 2)));
+                let body = assoc_items(rng, t, second[t], &arities, 0);
+                s.push_str(&format!("impl T{}{} for S{} {{ {} }}\n", t, targ, i, body));
             }
             impls.push((t, i));
         }
     }
-    AProg { arities, tparams, impls, text: s }
+    AProg { arities, tparams, impls, second, text: s }
+}
+
+/// the `type X = ..;` items of an impl of trait `t`, in random order when there are two
+fn assoc_items(rng: &mut Rng, t: usize, second: bool, arities: &[usize], nparams: usize) -> String {
+    let a = format!("type A{} = {};", t, ty(rng, arities, nparams, 2));
+    if !second {
+        return a;
+    }
+    let b = format!("type B{} = {};", t, ty(rng, arities, nparams, 2));
+    if rng.chance(1, 2) {
+        format!("{} {}", a, b)
+    } else {
+        format!("{} {}", b, a)
+    }
+}
+
+/// the associated type of trait `t` a goal projects: `A<t>`, or `B<t>` half of the time when declared
+fn assoc_name(rng: &mut Rng, p: &AProg, t: usize) -> String {
+    if p.second[t] && rng.chance(1, 2) {
+        format!("B{}", t)
+    } else {
+        format!("A{}", t)
+    }
 }
 
 
@@ -220,26 +256,33 @@ pub fn run(ctx: &Ctx, out: &mut Out) {
     for i in 0..nprog {
         let mut rng = ctx.rng(0, i as u64);
         let p = gen(&mut rng);
+        if p.second.iter().any(|b| *b) {
+            out.count("family1_two_assoc_types");
+        }
         let mut goals = vec![];
         for k in 0..8 {
             let gtext = match k % 4 {
                 0 => {
                     let (s, t, a) = proj(&mut rng, &p, &[]);
-                    format!("exists<U> {{ Normalize(<{} as T{}{}>::A{} -> U) }}", s, t, a, t)
+                    let an = assoc_name(&mut rng, &p, t);
+                    format!("exists<U> {{ Normalize(<{} as T{}{}>::{} -> U) }}", s, t, a, an)
                 }
                 1 => {
                     let (s, t, a) = proj(&mut rng, &p, &[]);
-                    let inner = if a.is_empty() { format!("A{} = {}", t, ty(&mut rng, &p.arities, 0, 2)) } else { format!("S0, A{} = {}", t, ty(&mut rng, &p.arities, 0, 2)) };
+                    let an = assoc_name(&mut rng, &p, t);
+                    let inner = if a.is_empty() { format!("{} = {}", an, ty(&mut rng, &p.arities, 0, 2)) } else { format!("S0, {} = {}", an, ty(&mut rng, &p.arities, 0, 2)) };
                     format!("{}: T{}<{}>", s, t, inner)
                 }
                 2 => {
                     let (s, t, a) = proj(&mut rng, &p, &[]);
-                    let inner = if a.is_empty() { format!("A{} = U", t) } else { format!("S0, A{} = U", t) };
+                    let an = assoc_name(&mut rng, &p, t);
+                    let inner = if a.is_empty() { format!("{} = U", an) } else { format!("S0, {} = U", an) };
                     format!("exists<U> {{ {}: T{}<{}> }}", s, t, inner)
                 }
                 _ => {
                     let (s, t, a) = proj(&mut rng, &p, &["X"]);
-                    format!("forall<X> {{ exists<U> {{ Normalize(<{} as T{}{}>::A{} -> U) }} }}", s, t, a, t)
+                    let an = assoc_name(&mut rng, &p, t);
+                    format!("forall<X> {{ exists<U> {{ Normalize(<{} as T{}{}>::{} -> U) }} }}", s, t, a, an)
                 }
             };
             goals.push(gtext);
